@@ -88,6 +88,40 @@ Proof.
   destruct (t_key t =? id_esc_key); [discriminate|]. cbn [orb]. intros H. apply IH. destruct (remove_swap l); [discriminate | reflexivity].
 Qed.
 
+Lemma cbi_no_increase calls : no_increase calls -> calls_before_increase calls = calls.
+Proof.
+  induction calls as [|c l IH]; intros H; [reflexivity|]. cbn [calls_before_increase].
+  rewrite (H c (or_introl eq_refl)). f_equal. apply IH. intros c' Hc'. apply H. right. exact Hc'.
+Qed.
+
+Lemma attempted_app_r a b : attempted_increase b = true -> attempted_increase (a ++ b) = true.
+Proof. intros H. unfold attempted_increase in *. rewrite existsb_app, H. apply orb_true_r. Qed.
+
+(* IncreaseSize(d) with d positive and within the cloud maximum always reaches the cloud: SetDesiredCapacity, or in fleet
+   mode at least the describe call the request starts with *)
+Lemma aws_increase_attempts g d o : 0 < d -> a_desired g + d <= a_max g ->
+  attempted_increase (liftA (fst (fst (aws_increase g d o)))) = true.
+Proof.
+  intros Hd Hmax. unfold aws_increase.
+  replace (d <=? 0) with false by (symmetry; apply Z.leb_gt; exact Hd).
+  replace (a_max g <? a_desired g + d) with false by (symmetry; apply Z.ltb_ge; exact Hmax).
+  destruct (fleet_mode g).
+  - unfold one_shot. destruct (ao_describe o) as [| |vpc]; try reflexivity.
+    destruct vpc as [|v0 vs]; [reflexivity|]. destruct (ao_fleet o) as [|insts nerr]; [reflexivity|].
+    assert (Hpre : forall rest r a', attempted_increase (liftA (fst (fst (([ADescribeAsg (a_name g) true; fleet_call g d (v0 :: vs) true] ++ rest, r, a') : list acall * inc_result * asg)))) = true) by reflexivity.
+    destruct insts as [|i0 is]; [destruct nerr; [|reflexivity]|].
+    all: cbv zeta.
+    all: match goal with |- context [if negb ?b then _ else _] => destruct b end; cbn [negb].
+    all: try (unfold cleanup; match goal with |- context [terminate_orphans ?a ?i ?f] => destruct (terminate_orphans a i f) as [[tc a'] fatal] end; reflexivity).
+    all: match goal with |- context [attach_loop ?f ?n ?i ?k ?fl] => destruct (attach_loop f n i k fl) as [ac r] end.
+    all: destruct r; try reflexivity.
+    all: unfold cleanup; match goal with |- context [terminate_orphans ?a ?i ?f] => destruct (terminate_orphans a i f) as [[tc a'] fatal] end; reflexivity.
+  - destruct (ao_setdesired_fail o); reflexivity.
+Qed.
+
+Lemma nodes_to_add_fits want target maxn amax : maxn <= amax -> 0 < nodes_to_add want target maxn -> target + nodes_to_add want target maxn <= amax.
+Proof. unfold nodes_to_add. destruct (maxn <? target + want) eqn:E; intros; [lia | apply Z.ltb_ge in E; lia]. Qed.
+
 Section Count.
   Variable x : gctx.
   Notation api := (e_api (x_env x)).
@@ -133,7 +167,7 @@ Section Count.
     let U := liftK (concat (map uc run)) in
     let ucount := zlen (filter (fun p : node * uoutcome => uoc_counts (snd p)) run) in
     let up := up_calls (scale_up (x_env x) (x_opts x) mx (x_dry x) st a tainted want) in
-    up = U \/
+    (up = U /\ (want - ucount <= 0 \/ a = None \/ exists g, a = Some g /\ nodes_to_add (want - ucount) (a_desired g) (Z.min mx (a_max g)) <= 0)) \/
     exists g, a = Some g /\ 0 < nodes_to_add (want - ucount) (a_desired g) (Z.min mx (a_max g)) /\
       up = U ++ liftA (fst (fst (aws_increase g (nodes_to_add (want - ucount) (a_desired g) (Z.min mx (a_max g))) (e_aorc (x_env x))))).
   Proof.
@@ -145,9 +179,10 @@ Section Count.
     { subst ul. destruct tainted as [|t0 ts] eqn:Et; [|split; [exact H1 | rewrite H2; subst ucount; lia]].
       subst ucount U run. unfold sort_newest. split; reflexivity. }
     destruct ul as [[ucalls cnt] tr]. cbn [fst snd] in Hul. destruct Hul as [Hu1 Hu2]. subst ucalls cnt. fold U.
-    destruct (0 <? want - ucount); [|left; reflexivity].
-    destruct a as [g|]; [|left; reflexivity].
-    destruct (nodes_to_add (want - ucount) (a_desired g) (Z.min mx (a_max g)) <=? 0) eqn:Eadd; [left; reflexivity|]. apply Z.leb_gt in Eadd.
+    destruct (0 <? want - ucount) eqn:Erest; [|left; split; [reflexivity | left; apply Z.ltb_ge; exact Erest]].
+    destruct a as [g|]; [|left; split; [reflexivity | right; left; reflexivity]].
+    destruct (nodes_to_add (want - ucount) (a_desired g) (Z.min mx (a_max g)) <=? 0) eqn:Eadd;
+      [left; split; [reflexivity | right; right; exists g; split; [reflexivity | apply Z.leb_le; exact Eadd]]|]. apply Z.leb_gt in Eadd.
     right. exists g. split; [reflexivity|]. split; [exact Eadd|].
     destruct (aws_increase g _ (e_aorc (x_env x))) as [[ac r] g']. destruct r; reflexivity.
   Qed.
@@ -161,7 +196,7 @@ Section Count.
   Proof.
     intros Hdry Hesc Hpre Hneed Hrel Hdes.
     pose proof (proj1 (proj2 Hpre)) as Hpre_inc.
-    destruct (scale_up_exact_shape (x_max x) st a1 want Hdry Hesc) as [-> | (g1 & -> & Hadd & ->)]; unfold check_C07_exact; rewrite Hdry.
+    destruct (scale_up_exact_shape (x_max x) st a1 want Hdry Hesc) as [[-> _] | (g1 & -> & Hadd & ->)]; unfold check_C07_exact; rewrite Hdry.
     { rewrite first_increase_none; [reflexivity | apply no_increase_app; [exact Hpre_inc | apply liftK_no_increase]]. }
     set (run := ul_run api o (sort_newest tainted) want 0) in *.
     set (U := concat (map uc run)) in *.
@@ -185,6 +220,39 @@ Section Count.
     rewrite Hadd_eq.
     replace (0 <? add) with true by (symmetry; apply Z.ltb_lt; exact Hadd). cbn [andb].
     destruct c; try contradiction; apply Z.eqb_eq; rewrite Hfirst; lia.
+  Qed.
+  (* the same scale-up acts on what it still needs *)
+  Lemma up_attempted pre st a1 want : x_dry x = false -> (forall y, In y tainted -> has_esc y = true) ->
+    quiet_prefix pre -> need_of x = Some want ->
+    oasg_rel (x_asg x) a1 ->
+    (match x_asg x, a1 with Some a, Some g1 => a_desired g1 = a_desired a - okterm pre | _, _ => True end) ->
+    check_up_attempted x (pre ++ up_calls (scale_up (x_env x) (x_opts x) (x_max x) (x_dry x) st a1 tainted want)) = true.
+  Proof.
+    intros Hdry Hesc Hpre Hneed Hrel Hdes.
+    pose proof (proj1 (proj2 Hpre)) as Hpre_inc.
+    destruct (x_asg x) as [a|] eqn:Ea; [|unfold check_up_attempted; rewrite Hdry, Hneed, Ea; reflexivity].
+    destruct a1 as [g1|]; [|simpl in Hrel; contradiction].
+    simpl in Hrel. destruct Hrel as (_ & _ & Hmax & _).
+    set (run := ul_run api o (sort_newest tainted) want 0).
+    set (ucount := zlen (filter (fun p : node * uoutcome => uoc_counts (snd p)) run)).
+    assert (Hcount : counted_untainted x (liftK (concat (map uc run))) = ucount).
+    { unfold run. rewrite urun_counted by (intros y Hy; apply (proj1 (sort_newest_In _ _)); exact Hy). reflexivity. }
+    destruct (scale_up_exact_shape (x_max x) st (Some g1) want Hdry Hesc) as [[-> Hwhy] | (g & Hg & Hadd & ->)];
+      unfold check_up_attempted; rewrite Hdry, Hneed, Ea.
+    - fold run in Hwhy. fold ucount in Hwhy.
+      rewrite cbi_no_increase by (apply no_increase_app; [exact Hpre_inc | apply liftK_no_increase]).
+      rewrite ok_terminations_is_okterm, okterm_app, okterm_liftK, counted_app, (counted_quiet x pre Hpre). fold run. rewrite Hcount.
+      destruct Hwhy as [Hrest | [Hnone | [g [Hg Hle]]]]; [| discriminate |].
+      + replace (0 <? want - (0 + ucount)) with false by (symmetry; apply Z.ltb_ge; lia). reflexivity.
+      + inversion Hg; subst g.
+        replace (nodes_to_add (want - (0 + ucount)) (a_desired a - (okterm pre + 0)) (Z.min (x_max x) (a_max a)))
+          with (nodes_to_add (want - ucount) (a_desired g1) (Z.min (x_max x) (a_max g1))) by (rewrite Hmax, Hdes; f_equal; lia).
+        replace (0 <? nodes_to_add (want - ucount) (a_desired g1) (Z.min (x_max x) (a_max g1))) with false by (symmetry; apply Z.ltb_ge; exact Hle).
+        rewrite andb_false_r. reflexivity.
+    - inversion Hg; subst g. fold run in Hadd |- *. fold ucount in Hadd |- *.
+      match goal with |- (if ?c then _ else _) = true => destruct c end; [|reflexivity].
+      rewrite app_assoc. apply attempted_app_r. apply aws_increase_attempts; [exact Hadd|].
+      apply nodes_to_add_fits; [apply Z.le_min_r | exact Hadd].
   Qed.
 End Count.
 
@@ -285,4 +353,95 @@ Proof.
       destruct Hbr as [Hno | [Hpos [pre [a1 [Hq [Hrel [Hd ->]]]]]]]; [apply c07_exact_no_increase; exact Hno|].
       apply up_exact; try assumption.
       exact (need_of_decided x cpuP memP d0 Hcool Hmin Hb Hne Hp Hdec Hpos).
+Qed.
+
+(* ---------- a decided scale-up is acted on (C06: "only adds capacity", "a scale-up of at least one node") ---------- *)
+Lemma up_attempted_none x calls : need_of x = None -> check_up_attempted x calls = true.
+Proof. intros H. unfold check_up_attempted. rewrite H. destruct (x_dry x); reflexivity. Qed.
+
+Lemma need_of_quiet x :
+  in_cooldown x = true \/ (x_nodes x = [] /\ x_pods x = []) \/ zlen (x_nodes x) < x_min x \/ x_max x < zlen (x_nodes x) \/
+  (x_min x <= zlen (c_untainted (x_cls x)) /\ percents x = PctErr) -> need_of x = None.
+Proof.
+  unfold need_of. intros [Hr|[[Hr1 Hr2]|[Hr|[Hr|[Hr1 Hr2]]]]].
+  - rewrite Hr. reflexivity.
+  - destruct (in_cooldown x); [reflexivity|]. rewrite Hr1, Hr2. reflexivity.
+  - destruct (in_cooldown x); [reflexivity|]. destruct (match x_nodes x, x_pods x with [], [] => true | _, _ => false end); [reflexivity|].
+    replace (zlen (x_nodes x) <? x_min x) with true by (symmetry; apply Z.ltb_lt; exact Hr). reflexivity.
+  - destruct (in_cooldown x); [reflexivity|]. destruct (match x_nodes x, x_pods x with [], [] => true | _, _ => false end); [reflexivity|].
+    replace (x_max x <? zlen (x_nodes x)) with true by (symmetry; apply Z.ltb_lt; exact Hr). rewrite orb_true_r. reflexivity.
+  - destruct (in_cooldown x); [reflexivity|]. destruct (match x_nodes x, x_pods x with [], [] => true | _, _ => false end); [reflexivity|].
+    destruct (_ || _); [reflexivity|].
+    replace (zlen (c_untainted (x_cls x)) <? x_min x) with false by (symmetry; apply Z.ltb_ge; exact Hr1). rewrite Hr2. reflexivity.
+Qed.
+
+Lemma need_of_not_up x cpuP memP :
+  in_cooldown x = false -> x_min x <= zlen (c_untainted (x_cls x)) -> x_min x <= zlen (x_nodes x) <= x_max x ->
+  (x_nodes x <> [] \/ x_pods x <> []) -> percents x = PctOk cpuP memP ->
+  match decide (x_opts x) (st2_of x) cpuP memP (r_cpu (u_total (usage_of x))) (1000 * r_mem (u_total (usage_of x))) (c_untainted (x_cls x)) with
+  | DeltaErr _ => True
+  | DeltaOk d0 => final_delta (x_env x) (x_opts x) (x_min x) (x_max x) (usage_of x) (capacity_of x) (c_untainted (x_cls x)) (c_tainted (x_cls x)) d0 <= 0
+  end -> need_of x = None.
+Proof.
+  intros Hcool Hmin [Hb1 Hb2] Hne Hp Hd. unfold need_of. rewrite Hcool.
+  replace (match x_nodes x, x_pods x with [], [] => true | _, _ => false end) with false
+    by (destruct (x_nodes x), (x_pods x); try reflexivity; destruct Hne as [Hne|Hne]; exfalso; apply Hne; reflexivity).
+  replace (zlen (x_nodes x) <? x_min x) with false by (symmetry; apply Z.ltb_ge; lia).
+  replace (x_max x <? zlen (x_nodes x)) with false by (symmetry; apply Z.ltb_ge; lia).
+  replace (zlen (c_untainted (x_cls x)) <? x_min x) with false by (symmetry; apply Z.ltb_ge; lia).
+  cbn [orb]. rewrite Hp. destruct (decide _ _ _ _ _ _ _) as [d0|d]; [|reflexivity].
+  replace (0 <? final_delta (x_env x) (x_opts x) (x_min x) (x_max x) (usage_of x) (capacity_of x) (c_untainted (x_cls x)) (c_tainted (x_cls x)) d0)
+    with false by (symmetry; apply Z.ltb_ge; exact Hd). reflexivity.
+Qed.
+
+Lemma scan_act_up_pos e o mn mx dry st2 a pods unt tainted forced lag tg us cap d0 fz : quiet_prefix lag -> okterm lag = 0 ->
+  let r := scan_act e o mn mx dry st2 a pods unt tainted forced lag tg us cap d0 fz in
+  let d2 := final_delta e o mn mx us cap unt tainted d0 in
+  0 < d2 -> exists pre a1, quiet_prefix pre /\ oasg_rel a a1 /\
+     (match a, a1 with Some g, Some g1 => a_desired g1 = a_desired g - okterm pre | _, _ => True end) /\
+     r_calls r = pre ++ up_calls (scale_up e o mx dry st2 a1 tainted d2).
+Proof.
+  intros Hlag Hlag0 r d2 Hpos. subst r. unfold scan_act. fold (final_delta e o mn mx us cap unt tainted d0). fold d2.
+  destruct (try_delete_nodes e a (force_candidates dry pods forced)) as [[fcalls ferr] a1] eqn:Ef.
+  destruct (try_delete_nodes_calls _ _ _ _ _ _ Ef) as [Hrel1 [Hf Hd1]].
+  pose proof (removal_quiet _ _ _ Hf) as Hfq.
+  replace (d2 <? 0) with false by (symmetry; apply Z.ltb_ge; lia).
+  replace (0 <? d2) with true by (symmetry; apply Z.ltb_lt; exact Hpos).
+  exists (lag ++ fcalls), a1.
+  split; [apply quiet_prefix_app; assumption|]. split; [exact Hrel1|]. split.
+  - destruct a as [g|], a1 as [g1|]; try exact I. rewrite okterm_app, Hlag0, okterm_acalls. exact Hd1.
+  - destruct (up_out (scale_up e o mx dry st2 a1 tainted d2)); simpl; rewrite <- app_assoc; reflexivity.
+Qed.
+
+Theorem group_passes_up_attempted now gdry api g a nodes pods :
+  let x := ctx_of now gdry api g a nodes pods in
+  check_up_attempted x (r_calls (scan_of now gdry api g a nodes pods)) = true.
+Proof.
+  intros x.
+  destruct (x_dry x) eqn:Hdry; [unfold check_up_attempted; rewrite Hdry; reflexivity|].
+  assert (Hcls : x_cls x = filter_nodes (x_dry x) (x_st x) (x_nodes x)) by reflexivity.
+  assert (Hasg : x_asg x = a) by reflexivity.
+  pose proof (tainted_has_esc x Hdry Hcls) as Hesc.
+  apply (scan_of_frame (fun r => check_up_attempted x (r_calls r) = true) now gdry api g a nodes pods x eq_refl).
+  all: clearbody x.
+  - intros Hr tags out ret st' _. apply up_attempted_none. apply need_of_quiet. exact Hr.
+  - intros Hcool Hlt Hb tags. cbv zeta. cbn [r_calls mk].
+    rewrite <- (app_nil_l (up_calls _)). rewrite <- Hasg.
+    apply up_attempted; try assumption.
+    + split; [|split]; intros c [].
+    + apply need_of_below_min; assumption.
+    + apply oasg_rel_refl.
+    + destruct (x_asg x); [|exact I]. change (okterm []) with 0. lia.
+  - intros Hcool Hmin Hb Hne cpuP memP Hp. split.
+    + intros tags d Hdec. apply up_attempted_none. apply (need_of_not_up x cpuP memP Hcool Hmin Hb Hne Hp). unfold st2_of. rewrite Hdec. exact I.
+    + intros tags d0 Hdec.
+      set (d2 := final_delta (x_env x) (x_opts x) (x_min x) (x_max x) (usage_of x) (capacity_of x) (c_untainted (x_cls x)) (c_tainted (x_cls x)) d0).
+      destruct (Z_lt_le_dec 0 d2) as [Hpos|Hnon].
+      * match goal with |- check_up_attempted _ (r_calls (scan_act ?e ?o ?mn ?mx ?dry ?s2 ?aa ?pods ?unt ?tainted ?forced ?lag ?tg ?us ?cap ?d0 ?fz)) = true =>
+           pose proof (scan_act_up_pos e o mn mx dry s2 aa pods unt tainted forced lag tg us cap d0 fz (lag_quiet _ _ _) (lag_okterm _ _ _) Hpos) as Hbr end.
+        cbv zeta in Hbr. rewrite <- Hasg in Hbr |- *.
+        destruct Hbr as [pre [a1 [Hq [Hrel [Hd ->]]]]].
+        apply up_attempted; try assumption.
+        exact (need_of_decided x cpuP memP d0 Hcool Hmin Hb Hne Hp Hdec Hpos).
+      * apply up_attempted_none. apply (need_of_not_up x cpuP memP Hcool Hmin Hb Hne Hp). unfold st2_of. rewrite Hdec. exact Hnon.
 Qed.
